@@ -56,6 +56,7 @@ def work(item: Tuple[str, str, str, Dict[str, Any], Sequence[Dict[str, Any]]]) -
         "tealer_s": st.tealer_s,
         "skipped": st.skipped,
         "nontrivial": st.nontrivial,
+        "extra": getattr(st, "extra", {}),
         "src": src,
     }
 
@@ -91,6 +92,7 @@ def run_family(ctx: Ctx, check_id: str, programs: Sequence[Tuple[str, str, Dict[
         cov["tealer_s"] += r["tealer_s"]
         if r["nontrivial"]:
             cov["nontrivial_programs"] += 1
+        common.merge_counts(cov.setdefault("counters", {}), r.get("extra", {}))
         if r["queries"]["unknown"]:
             outcome.inconclusive.append(f"{check_id}:{r['name']} ({r['queries']['unknown']} unknown)")
         if len(cov["samples"]) < max_samples and r["nontrivial"] and not r["findings"]:
